@@ -128,6 +128,10 @@ def h_algebra(ctx, cfg):
             sp[0].append('scribble'); sp[1].append('scribble'); sp[3]['scribble'] = 1
             sp2 = S.sort_params(sigs[0], sources=True)
             R = S.apply_params(sigs[0], *sp2)
+            # the round trip without provenance handed over: the result keeps the input's provenance, not the map itself
+            R3 = S.apply_params(sigs[0], *S.sort_params(sigs[0]))
+            sh3 = _shares(R3, sigs)
+            ctx.require('result-shares-nothing[apply_params without sources]', sh3 is None, lambda: dict(why=sh3, result=str(R3)))
     except ValueError:
         ctx.count('raised')
     for j, sn in enumerate(snaps):
